@@ -487,8 +487,12 @@ class BoundRepoMethods:
             # value is explored both ways (the analysed code may branch on it), anything else about it is not modelled
             for k in chk.res.mro(cls_info):
                 if name in k.attrs and k.attrs[name][1] is not None:
+                    ck = ("class-attribute", k.key, name)   # one object per class, as in Python: stores through an instance are seen by all
+                    if ck in cache:
+                        return cache[ck]
                     try:
-                        return ast.literal_eval(k.attrs[name][1])
+                        cache[ck] = ast.literal_eval(k.attrs[name][1])
+                        return cache[ck]
                     except (ValueError, TypeError, SyntaxError):
                         break
             orc = self.__dict__.get("_oracle")
